@@ -24,6 +24,7 @@ brotli-decompressor 4.0.3, tied by the differential decode of every run).
 -/
 import BV.Lemmas.DictDec
 import BV.Lemmas.DictEnc
+import BV.Lemmas.DictCopy3
 import BV.Model.Recoder
 
 namespace BV.Props.C10
@@ -222,6 +223,66 @@ theorem C10_roundtrip_partial (p0 : Params) (size : Nat) (dict : Nat → Nat) (h
   have hmbd : (decoderFor p0 size dict).mbd = 2 ^ encL p0 - 16 := by
     unfold Dec.mbd decoderFor; simp only [hw]
   exact ⟨s, hs, by rw [hmbd, ← hh]; exact id⟩
+
+/-! ### the decoder's copy path: the known finding, and the exact condition that excludes it -/
+
+/-- the 61-byte input of `/verif/proposed/decoder-shrunk-ring-clobbers-dict.md` -/
+def witnessInput : List Nat :=
+  [0xe5,0xe5,0xe5,0xe5,0xe5,0xe5,0xe5,0x68,0x72,0x6f,0x75,0x67,0x68,0x20,0x64,0x69,0xe5,0x73,0x73,0x61,0x72,0x79,0x2e,0x20,
+   0x41,0x6c,0x74,0x68,0x6f,0x75,0x67,0x68,0x20,0x70,0x65,0x72,0x66,0x6f,0x72,0x6d,0xe5,0xe5,0xff,0x54,0x67,0x0e,0xb4,0xa1,
+   0xe5,0xe5,0xe5,0xe5,0x08,0x50,0xae,0xad,0xaa,0x24,0x61,0xe5,0xe5]
+
+/-- the decoder given the 1-byte dictionary `e5`, window bits 10 -/
+def witnessDec : Dec := ⟨10, 1, fun _ => 0xe5⟩
+
+/-- a VALID command sequence for that input: 48 literals, a copy of 4 bytes at distance 49 (it starts at the
+dictionary byte and runs on into the start of the output), 9 literals -/
+def witnessCmds : List DecCmd :=
+  [.bytes (witnessInput.take 48), .copy 49 4, .bytes (witnessInput.drop 52)]
+
+/-- **`decoder_shrunk_ring_clobbers_dict`** (counterexample, proved on the model of brotli-decompressor's copy path):
+for the 1-byte dictionary `e5` and a single last meta-block of 61 bytes the decoder shrinks its ring to 64 bytes
+(dictionary at index 63); the command sequence is valid — the byte-by-byte reference decoder, and the same copy path
+in an UNshrunk ring, give the input — but the speculative `memmove16` of the copy at position 48 overwrites ring[63],
+its own source, and the decoder returns `00` at byte 48: wrong bytes of the right length, exactly what the real
+decoder returns.  The copy violates both safety conditions. -/
+theorem decoder_shrunk_ring_clobbers_dict :
+    witnessDec.ringSize true 61 = 64 ∧
+    (List.range 61).map (refRun 64 witnessCmds (witnessDec.ringAt 64) 0).1 = witnessInput ∧
+    (decRun 1024 witnessCmds (witnessDec.ringAt 1024) 0).map (fun r => (List.range r.2).map r.1) = some witnessInput ∧
+    decOutput witnessDec 61 witnessCmds = some (witnessInput.take 48 ++ [0, 0xe5, 0xe5, 0xe5] ++ witnessInput.drop 52) ∧
+    decOutput witnessDec 61 witnessCmds ≠ some witnessInput ∧
+    ¬ CopySafe witnessDec 64 48 4 ∧ ¬ SrcSafe witnessDec 64 48 49 := by
+  refine ⟨by decide, by decide, by decide, by decide, by decide, ?_, ?_⟩
+  · unfold CopySafe; decide
+  · unfold SrcSafe; decide
+
+/-- **`dict_tail_readable`** — the exact condition that excludes the finding.  Let the decoder (any window bits, any
+dictionary, ring of size `R ≥ 16` holding the tail, `R = ringbuffer_size` shrunk or not) execute the commands of its
+first meta-block from the freshly allocated ring.  If every copy satisfies
+`CopySafe` (`R = 2^wbits`, i.e. the ring was not shrunk, or every byte the copy may write — speculative overshoot of up
+to 15 bytes included — ends below the dictionary: `writeEnd pos len ≤ R − d'`) and
+`SrcSafe` (`distance ≤ R − 16`, or its first 16-byte block ends below the dictionary),
+then the decoder's copy path produces exactly the output of the byte-by-byte RFC reference decoder, and every
+dictionary byte that is still within `max_distance` at the end is intact.  (In an unshrunk ring both conditions
+hold for every legal copy: `distance ≤ max_backward_distance = R − 16`.) -/
+theorem dict_tail_readable (D : Dec) (R : Nat) (hR : 16 ≤ R) (hde : D.dEff ≤ R) (cmds : List DecCmd)
+    (ring' : Nat → Nat) (pos' : Nat) (hsafe : CmdsSafe D R cmds 0)
+    (h : decRun R cmds (D.ringAt R) 0 = some (ring', pos')) :
+    pos' = (refRun R cmds (D.ringAt R) 0).2 ∧
+    (∀ j, j < pos' → ring' j = (refRun R cmds (D.ringAt R) 0).1 j) ∧
+    DictLive D R ring' pos' := by
+  obtain ⟨h1, h2⟩ := decRun_eq_refRun D R hR hde cmds _ _ 0 ring' pos' hsafe ⟨fun _ _ => rfl, fun _ _ _ _ => rfl⟩ h
+  refine ⟨h1, h2.1, ?_⟩
+  -- the reference run never touches the dictionary region it can still reach; combine with agreement
+  intro k hk1 hk hr
+  rw [h2.2 k hk1 hk hr]
+  exact refRun_dict D R hde cmds (D.ringAt R) 0 hsafe (dictLive_alloc D R hde) k hk1 hk (by rw [← h1]; exact hr)
+
+/-- in an unshrunk ring every legal copy (`1 ≤ distance ≤ max_distance ≤ 2^wbits − 16`) is safe -/
+theorem full_ring_copies_safe (D : Dec) (pos dist len : Nat) (hd : dist ≤ D.mbd) :
+    CopySafe D (2 ^ D.wbits) pos len ∧ SrcSafe D (2 ^ D.wbits) pos dist :=
+  ⟨Or.inl rfl, Or.inl (by unfold Dec.mbd at hd; exact hd)⟩
 
 /-! ### non-vacuity -/
 
